@@ -58,6 +58,10 @@ type cfg struct {
 	// mtuChange: 0 the sender was created at the MTU in force; 1/2 it was created at a smaller/larger
 	// MTU, sent packets, and then got this MTU through LinkService.SetMTU (management faces/update)
 	mtuChange int
+	// hist: run-time reconfiguration history the sender went through before it had these options
+	// (block 5, reconf.go): one letter per setter call, "" = none. The option fields above are the
+	// FINAL options; the options the sender was constructed with follow from them and the history.
+	hist string
 }
 
 // features lists how a configuration departs from the baseline (fragmentation on, nothing attached).
@@ -95,6 +99,9 @@ func (c cfg) features() []string {
 	case 3:
 		f = append(f, "SetOptions(from:both-toggled)")
 	}
+	if c.hist != "" {
+		f = append(f, reconfFeature)
+	}
 	switch c.mtuChange {
 	case 1:
 		f = append(f, "SetMTU(raised-on-live-face)")
@@ -120,7 +127,7 @@ func viaCfgs() []cfg {
 			for via := 1; via <= 3; via++ {
 				for _, t := range []int{0, 1} {
 					for _, m := range []int{0, 3} {
-						out = append(out, cfg{fr, ifi, t, m, via, 0})
+						out = append(out, cfg{fr, ifi, t, m, via, 0, ""})
 					}
 				}
 			}
@@ -139,7 +146,7 @@ func allCfgs(base bool) []cfg {
 		for _, ifi := range []bool{false, true} {
 			for _, t := range toks {
 				for _, m := range marks {
-					out = append(out, cfg{fr, ifi, t, m, 0, 0})
+					out = append(out, cfg{fr, ifi, t, m, 0, 0, ""})
 				}
 			}
 		}
@@ -179,7 +186,7 @@ type wctx struct {
 	id   uint64
 	slot *slot
 	rcv  *face.NDNLPLinkService // cached receiver (enumeration B)
-	rbuf []byte                  // the receive buffer of this worker's "transport" (see recvReused)
+	rbuf []byte                 // the receive buffer of this worker's "transport" (see recvReused)
 }
 
 // recvReused hands a frame to the receiver the way every real transport does: the frame is read
@@ -254,7 +261,8 @@ func addVio(clause, symptom string, c cfg, mtu, size int, detail string, replay 
 	defer vioMu.Unlock()
 	if e, ok := vios[k]; ok {
 		e.count++
-		if mtu < e.mtu || (mtu == e.mtu && size < e.size) {
+		if len(c.hist) < len(e.c.hist) || (len(c.hist) == len(e.c.hist) && (mtu < e.mtu || (mtu == e.mtu && size < e.size))) {
+			e.c = c // the shortest reconfiguration history is the one reported
 			e.mtu, e.size, e.detail, e.replay = mtu, size, detail, replay()
 		}
 		return
@@ -419,7 +427,7 @@ func (p *pair) runCase(size int, st *caseStats) {
 	c, mtu := p.c, p.mtu
 	out, wantTok, wantMark, anyMark := p.outPkt(tp, size)
 	replay := func() map[string]any {
-		return map[string]any{"enumeration": "A", "mtu": mtu, "mtu_before": p.mtu0, "size": size, "packet": string(tp.kind), "config": c.String()}
+		return map[string]any{"enumeration": "A", "mtu": mtu, "mtu_before": p.mtu0, "size": size, "packet": string(tp.kind), "config": c.String(), "history": c.hist}
 	}
 	p.stx.VerifReset()
 	if c.mark == 2 {
@@ -710,6 +718,10 @@ func main() {
 		mtus3 = []int{128, 160, 256, 257, 258, 300, 508, 1280, 1500, 4000, 8192, 8800}
 	}
 	devOverride := false
+	dev5 := os.Getenv("VERIF_C10_DEV_BLOCK5") != "" // development aid only: blocks 1-4 get no time
+	if dev5 {
+		devOverride, budgetA = true, 0
+	}
 	if v := os.Getenv("VERIF_C10_MTUS"); v != "" { // development aid only: restrict both MTU lists
 		devOverride = true
 		mtus1, mtus2, mtus3 = nil, nil, nil
@@ -832,11 +844,25 @@ func main() {
 	if thorough {
 		b4budget = 3 * time.Minute
 	}
+	if dev5 {
+		b4budget = 0
+	}
 	cov4, cases4, pairs4 := enumMTUChange(thorough, time.Now().Add(b4budget))
 	covA["block4"] = cov4
 	tot.nCases += cases4
 	shapes += pairs4
 	completeA = completeA && cov4["complete"] == true
+
+	// block 5: run-time reconfiguration histories (SetOptions repeated / toggled and toggled back)
+	b5budget := 10 * time.Second
+	if thorough {
+		b5budget = 4 * time.Minute
+	}
+	cov5, cases5, classes5 := enumReconf(thorough, time.Now().Add(b5budget), samples)
+	covA["block5"] = cov5
+	tot.nCases += cases5
+	shapes += classes5
+	completeA = completeA && cov5["complete"] == true
 
 	// ---------------- Enumeration B ----------------
 	covB := enumB(thorough, samples)
@@ -857,7 +883,7 @@ func main() {
 	code := rep.FinishNoExit(report.Coverage{
 		"evaluations":         tot.nCases + covB["orders"].(int64),
 		"distinct_nontrivial": shapes + covB["classes_run"].(int64),
-		"rule":                "A: distinct (MTU, configuration, frame count >= 2) triples whose frames were sent and re-assembled; B: distinct (MTU, message shape, last-fragment class, frame source) classes whose every frame order was run, plus the message sets of the sequence-distance and concurrent-maximum-size families",
+		"rule":                "A: distinct (MTU, configuration, frame count >= 2) triples whose frames were sent and re-assembled, the ordered MTU pairs of block 4 and the (MTU, final configuration, setter history) classes of block 5; B: distinct (MTU, message shape, last-fragment class, frame source) classes whose every frame order was run, plus the message sets of the sequence-distance and concurrent-maximum-size families",
 		"samples":             samples.List(),
 		"exhaustive":          exhaustive,
 		"enumeration_A":       covA,
@@ -870,6 +896,7 @@ func main() {
 		"Own congestion marking (config mark:own) is armed through a hook that puts the link service in the state 'threshold exceeded, last mark long ago' and a transport reporting a congested queue; wall-clock time never decides an outcome.",
 		"Enumeration B also runs harness-built reference frames (Sequence/FragIndex/FragCount on every fragment, token and mark repeated) so that the receiver is exercised in every order even while the sender omits FragIndex/FragCount.",
 		"Block 4 changes the MTU of a live sender (created at m0, has sent packets) with LinkService.SetMTU, the setter management faces/update uses, for all ordered pairs of the 74-value MTU list, and applies the same oracle with the MTU then in force to packet sizes straddling both MTUs.",
+		"Block 5 puts the sender through every history of up to 4 (thorough: 5) run-time setter calls over {SetOptions(same options), SetOptions(incoming-face indication toggled), SetOptions(fragmentation toggled), SetOptions(other options toggled)} plus each call repeated 5 and 8 times, with sends between the calls, before the packet sizes around the MTU are swept; besides the oracle of the other blocks (for the final options) C10.one is applied differentially: a packet that a freshly constructed link service with the same options sends as ONE frame fits, so the reconfigured sender must send it as one frame too.",
 		"Block 3 reaches the sender's options through SetOptions from every other (fragmentation, incoming-face indication) option set; the oracle is the same as for a sender constructed with the final options.",
 		"Receive buffer: every frame reaches handleIncomingFrame (enumerations A and B) in ONE buffer per receiver that is overwritten with a filler as soon as the call returns, as a transport's receive loop does; what was delivered is judged after all frames of the case.",
 		"Concurrent maximum-size family: 2..4 messages of 8800, 8799, ... bytes at MTU 128, 129, 160 (thorough: 15 MTUs up to 300 and a mixed-size profile) with four link-layer header profiles (up to 32-byte token + 8-byte mark + incoming-face indication = the most fragments per message), five systematic interleavings, two further messages afterwards on the same link; not every interleaving of hundreds of frames.",
